@@ -9,6 +9,7 @@ import (
 	"errors"
 	"fmt"
 	"net"
+	"os"
 	"strings"
 	"testing"
 
@@ -20,7 +21,7 @@ import (
 	errorx "github.com/panjf2000/gnet/v2/pkg/errors"
 )
 
-var ctlOps = []string{"Validate", "CountConnections", "Dup", "DupListener-ok", "DupListener-unknown", "Register-empty", "Register-conn", "Execute-nil", "Execute-run", "Execute-returns-inshutdown", "Stop-cancelled", "Stop-live"}
+var ctlOps = []string{"Validate", "CountConnections", "Dup", "DupListener-ok", "DupListener-unknown", "Register-empty", "Register-conn", "Register-unixgram", "Execute-nil", "Execute-run", "Execute-returns-inshutdown", "Stop-cancelled", "Stop-live"}
 
 type ctlState struct {
 	w          *world
@@ -112,6 +113,53 @@ func (cs *ctlState) do(op string, phase string) {
 		if err == nil || ch != nil && err != nil {
 			bad("returned channel=%v err=%v for a context without target", ch != nil, err)
 		}
+	case "Register-unixgram":
+		// an unsupported kind of Unix-domain socket (datagram): rejected, with exactly one result
+		fds, err := unix.Socketpair(unix.AF_UNIX, unix.SOCK_DGRAM|unix.SOCK_CLOEXEC, 0)
+		if err != nil {
+			bad("socketpair: %v", err)
+			return
+		}
+		f := os.NewFile(uintptr(fds[0]), "spdgram")
+		nc, err := net.FileConn(f)
+		_ = f.Close()
+		mcsys.Adopt(fds[1], "user", "socketpair-peer")
+		cs.peerFds = append(cs.peerFds, fds[1])
+		if err != nil {
+			bad("FileConn: %v", err)
+			return
+		}
+		ch, err := eng.Register(NewNetConnContext(context.Background(), nc))
+		expectErr(err, nil)
+		if err != nil {
+			_ = nc.Close()
+			return
+		}
+		cs.regWant++
+		sched.Go("regwait-dgram", func() {
+			n := 0
+			for {
+				res, ok, timedOut := recvRes(w, ch)
+				if timedOut {
+					w.violate("ctl:Register:pending", "Register(unixgram conn) accepted the call but never delivered a result / never closed its channel")
+					return
+				}
+				if !ok {
+					break
+				}
+				n++
+				if res.Conn != nil || res.Err == nil {
+					w.violate("ctl:Register:unixgram", "Register of a unixgram connection delivered Conn=%v Err=%v (want the unsupported-protocol error)", res.Conn != nil, res.Err)
+				}
+			}
+			if n != 1 {
+				w.violate("ctl:Register:count", "Register(unixgram conn) delivered %d results (want exactly one)", n)
+			}
+			cs.regResults++
+		})
+		// let the registration run its course before the next call (Register-conn, in contrast, is
+		// left racing with whatever comes next, including Stop)
+		sched.WaitIdle()
 	case "Register-conn":
 		nc, pfd, err := socketpairConn()
 		if err != nil {
@@ -249,6 +297,9 @@ func ctlWorld(name string, et bool, concurrent bool, lb LoadBalancing) *world {
 			cancelledStop := false
 			for i := 0; i < 3; i++ {
 				op := ctlOps[sched.Choose(len(ctlOps)-1, "ctl-running")] // Stop-live is the fixed step below
+				if f := os.Getenv("MC_CTL_FIRST"); f != "" && i == 0 {
+					op = f // development aid: fixed first call
+				}
 				phase := "running"
 				cs.do(op, phase)
 				if op == "Stop-cancelled" {
